@@ -3,6 +3,7 @@ package c18
 import (
 	"fmt"
 	"regexp"
+	"strconv"
 	"strings"
 
 	"verif/internal/fw"
@@ -99,6 +100,15 @@ func Prop() *fw.Property {
 			// one font drawn horizontally and vertically upright in one document
 			"font-horizontal-and-vertical": func(v *fw.Violation) bool {
 				return strings.Contains(v.Case, "NewTextLine") && strings.Contains(v.Case, "Upright")
+			},
+			// the pen is off by more than 1 but less than 2 thousandths of an em
+			"pen-error-below-2": func(v *fw.Violation) bool {
+				m := regexp.MustCompile(`\(error ([0-9.]+) > 1\)`).FindStringSubmatch(v.Detail)
+				if m == nil {
+					return false
+				}
+				e, err := strconv.ParseFloat(m[1], 64)
+				return err == nil && e < 2
 			},
 			// EBGaramond substitutes glyphs that its cmap does not contain (f before f/i, hyphen between capitals)
 			"ebgaramond": caseMatches(` of EBGaramond `),
